@@ -1,5 +1,6 @@
 import Nv.OracleIO
 import Nv.Model.C03
+import Nv.Model.C03Cow
 import Nv.Gen.C03
 /-!
 oracle_c03 — line protocol (items are printed `key:val`, lists `[a,b]`, absent `nil`).
@@ -9,6 +10,8 @@ First line of a script: `new <degree>` (direct `btree.BTree`, handle 0) or `neww
 direct:  `ins h k v` `del h k` `delmin h` `delmax h` `get h k` `min h` `max h`  → item | nil
          `has h k` → true|false      `len h` → n      `clone h` → h<new handle>     `clear h 0|1` → ok
          `chk h` → ok | bad          (structural invariant)
+         `owned h` → owned=<n> total=<m>   (T: nodes reachable from the root carrying the tree's cow tag — layer B)
+         `cons h` → ok | layers-differ      (T: layer B read back equals layer A)
          `scan h <name> <p|-> <p2|-> <cont>`  name ∈ asc ascge ascgt asclt ascrange desc descle desclt descgt descrange
                                               cont ∈ all none lt:K gt:K ne:K      → items handed to the callback
 wrapper: `wins k v` → ok   `wupd old k v` `wups old k v` `wdel k` → true|false   `wget k` → item | nil
@@ -21,6 +24,9 @@ open Nv Nv.C03
 structure St where
   wrapper : Bool
   trees : List Tree
+  heap : Cow.Heap := Cow.Heap.init 32
+  htrees : List Cow.HTree := []
+  nextCow : Nat := 1
 
 def cfg : Cfg := Nv.Gen.C03.cfg
 
@@ -87,6 +93,14 @@ def withTree (s : St) (h : String) (f : Nat → Tree → St × String) : St × S
 
 def setTree (s : St) (i : Nat) (t : Tree) : St := { s with trees := s.trees.set i t }
 
+/-- run a layer-B write on handle `i` -/
+def runB (s : St) (i : Nat) (f : Cow.HTree → Cow.M (Cow.HTree × Option Item)) : St :=
+  match s.htrees[i]? with
+  | some ht =>
+    let r := f ht s.heap
+    { s with heap := r.2, htrees := s.htrees.set i r.1.1 }
+  | none => s
+
 def withW (s : St) (f : Tree → St × String) : St × String :=
   if !s.wrapper then (s, "bad-op") else
   match s.trees with
@@ -101,19 +115,36 @@ def step (s : St) (line : String) : St × String :=
   match words line with
   | ["new", d] =>
     match pNat d with
-    | some d => if d < 2 || d > 64 then (s, "bad-op") else (⟨false, [Tree.new d]⟩, "ok")
+    | some d => if d < 2 || d > 64 then (s, "bad-op") else
+        ({ wrapper := false, trees := [Tree.new d], heap := Cow.Heap.init 32, htrees := [⟨d, none, 0, 0⟩], nextCow := 1 }, "ok")
     | none => (s, "bad-op")
-  | ["neww"] => (⟨true, [wNew cfg]⟩, "ok")
+  | ["neww"] => ({ wrapper := true, trees := [wNew cfg] }, "ok")
   | ["ins", h, k, v] => withTree s h fun i t =>
     match pInt k, pNat v with
-    | some k, some v => let r := t.replaceOrInsert ⟨k, v⟩; (setTree s i r.1, showOpt r.2)
+    | some k, some v =>
+      let r := t.replaceOrInsert ⟨k, v⟩
+      (runB (setTree s i r.1) i (fun ht => Cow.replaceOrInsertB ht ⟨k, v⟩), showOpt r.2)
     | _, _ => (s, "bad-op")
   | ["del", h, k] => withTree s h fun i t =>
     match pInt k with
-    | some k => let r := t.deleteItem (.item k); (setTree s i r.1, showOpt r.2)
+    | some k =>
+      let r := t.deleteItem (.item k)
+      (runB (setTree s i r.1) i (fun ht => Cow.deleteItemB ht (.item k)), showOpt r.2)
     | none => (s, "bad-op")
-  | ["delmin", h] => withTree s h fun i t => let r := t.deleteItem .min; (setTree s i r.1, showOpt r.2)
-  | ["delmax", h] => withTree s h fun i t => let r := t.deleteItem .max; (setTree s i r.1, showOpt r.2)
+  | ["delmin", h] => withTree s h fun i t =>
+    let r := t.deleteItem .min
+    (runB (setTree s i r.1) i (fun ht => Cow.deleteItemB ht .min), showOpt r.2)
+  | ["delmax", h] => withTree s h fun i t =>
+    let r := t.deleteItem .max
+    (runB (setTree s i r.1) i (fun ht => Cow.deleteItemB ht .max), showOpt r.2)
+  | ["owned", h] => withTree s h fun i _ =>
+    match s.htrees[i]? with
+    | some ht => let r := ht.owned s.heap; (s, s!"owned={r.1} total={r.2}")
+    | none => (s, "bad-op")
+  | ["cons", h] => withTree s h fun i t =>
+    match s.htrees[i]? with
+    | some ht => (s, if ht.inorder s.heap == t.inorder && ht.length == t.length then "ok" else "layers-differ")
+    | none => (s, "bad-op")
   | ["get", h, k] => withTree s h fun _ t =>
     match pInt k with
     | some k => (s, showOpt (t.get k))
@@ -128,9 +159,19 @@ def step (s : St) (line : String) : St × String :=
   | ["chk", h] => withTree s h fun _ t => (s, if t.ok then "ok" else "bad")
   | ["clone", h] => withTree s h fun _ t =>
     if s.trees.length ≥ 8 then (s, "bad-op") else
-    ({ s with trees := s.trees ++ [t] }, s!"h{s.trees.length}")
+    match s.htrees[(pNat h).getD 0]? with
+    | some ht =>
+      let c := Cow.cloneB ht s.nextCow (s.nextCow + 1)
+      ({ s with trees := s.trees ++ [t], htrees := (s.htrees.set ((pNat h).getD 0) c.1) ++ [c.2], nextCow := s.nextCow + 2 },
+        s!"h{s.trees.length}")
+    | none => (s, "bad-op")
   | ["clear", h, b] => withTree s h fun i t =>
-    if b == "0" || b == "1" then (setTree s i t.clear, "ok") else (s, "bad-op")
+    if b == "0" || b == "1" then
+      -- layer B: the root is dropped; refilling the free list from the dropped nodes is not modelled (unobservable)
+      ({ setTree s i t.clear with htrees := match s.htrees[i]? with
+          | some ht => s.htrees.set i { ht with root := none, length := 0 }
+          | none => s.htrees }, "ok")
+    else (s, "bad-op")
   | ["scan", h, name, p, p2, cont] => withTree s h fun _ t =>
     match scanArgs name, pOptInt p, pOptInt p2, pPred cont with
     | some (a, needP, needP2), some p, some p2, some cont =>
@@ -139,19 +180,19 @@ def step (s : St) (line : String) : St × String :=
     | _, _, _, _ => (s, "bad-op")
   | ["wins", k, v] => withW s fun t =>
     match pInt k, pNat v with
-    | some k, some v => (⟨true, [wInsert t ⟨k, v⟩]⟩, "ok")
+    | some k, some v => ({ s with trees := [wInsert t ⟨k, v⟩] }, "ok")
     | _, _ => (s, "bad-op")
   | ["wupd", old, k, v] => withW s fun t =>
     match pInt old, pInt k, pNat v with
-    | some old, some k, some v => let r := wUpdate t old ⟨k, v⟩; (⟨true, [r.1]⟩, showBool r.2)
+    | some old, some k, some v => let r := wUpdate t old ⟨k, v⟩; ({ s with trees := [r.1] }, showBool r.2)
     | _, _, _ => (s, "bad-op")
   | ["wups", old, k, v] => withW s fun t =>
     match pInt old, pInt k, pNat v with
-    | some old, some k, some v => let r := wUpdateOrInsert t old ⟨k, v⟩; (⟨true, [r.1]⟩, showBool r.2)
+    | some old, some k, some v => let r := wUpdateOrInsert t old ⟨k, v⟩; ({ s with trees := [r.1] }, showBool r.2)
     | _, _, _ => (s, "bad-op")
   | ["wdel", k] => withW s fun t =>
     match pInt k with
-    | some k => let r := wDelete t k; (⟨true, [r.1]⟩, showBool r.2)
+    | some k => let r := wDelete t k; ({ s with trees := [r.1] }, showBool r.2)
     | none => (s, "bad-op")
   | ["wget", k] => withW s fun t =>
     match pInt k with
@@ -173,10 +214,10 @@ def step (s : St) (line : String) : St × String :=
       else
         -- concurrent inserts of distinct keys commute: any order yields the same set
         let keys := (List.range ((hi - lo).toNat + 1)).map (fun (i : Nat) => lo + Int.ofNat i)
-        (⟨true, [keys.foldl (fun t k => wInsert t ⟨k, 0⟩) t]⟩, "ok")
+        ({ s with trees := [keys.foldl (fun t k => wInsert t ⟨k, 0⟩) t] }, "ok")
     | _, _ => (s, "bad-op")
   | ["wlen"] => withW s fun t => (s, toString t.length)
   | ["wchk"] => withW s fun t => (s, if t.ok then "ok" else "bad")
   | _ => (s, "bad-op")
 
-def main : IO Unit := oracleMain step ⟨false, []⟩
+def main : IO Unit := oracleMain step { wrapper := false, trees := [] }
